@@ -37,6 +37,12 @@ def shrink_program(prog, still_fails, max_tests=80):
                 if i >= len(cb):
                     i -= 1
                     continue
+                if isinstance(cb[i], (A.DefType, A.TypeDef, A.Dim, A.Const)):
+                    # declarations give names their types: deleting one
+                    # turns a valid program into a different (often
+                    # invalid) one that may fail for another reason
+                    i -= 1
+                    continue
                 del cb[i]
                 tests += 1
                 ok = False
